@@ -1,4 +1,5 @@
 import Jwt.Jwk
+import Jwt.Generated.JwkTables
 import Jwt.Lemmas.Json
 import Jwt.Lemmas.AlgFacts
 import Jwt.Props.C11
@@ -122,6 +123,23 @@ theorem C08_frame (o : KeyOracle) (kvs : List (Bytes × Json)) (n : Bytes) (v : 
     g [113, 105] (by decide)]
 
 /-! ### non-vacuity -/
+/-- **Which member becomes which number of the key** (generated from `openssl/jwk-parse.c`): RSA `n, e, d,
+p, q, dp, dq, qi` fill the modulus, the exponents, the two factors, the two CRT exponents and the CRT
+coefficient in that order (RFC 7518 §6.3 ↔ OpenSSL's parameter names); EC `x`, `y` reach the affine X and Y
+coordinate in that order and `d` the private scalar; OKP `x` is the public and `d` the private octet string.
+A transposition (p/q, dp/dq, x/y, x/d) fails this theorem at build time. -/
+theorem C08_param_map :
+    Generated.rsaParamMap = [("n", "n"), ("e", "e"), ("d", "d"), ("p", "rsa-factor1"), ("q", "rsa-factor2"),
+      ("dp", "rsa-exponent1"), ("dq", "rsa-exponent2"), ("qi", "rsa-coefficient1")] ∧
+    (∀ m p, (m, p) ∈ Generated.ecParamMap ↔ (m, p) ∈ [("x", "pub.x"), ("y", "pub.y"), ("d", "priv")]) ∧
+    Generated.ecCoordFlow = [(0, "X"), (1, "Y")] ∧
+    (∀ m p, (m, p) ∈ Generated.okpParamMap ↔ (m, p) ∈ [("x", "pub"), ("d", "priv")]) := by
+  refine ⟨by decide, ?_, by decide, ?_⟩
+  · intro m p; simp only [Generated.ecParamMap, List.mem_cons, List.mem_nil_iff, Prod.mk.injEq, or_false]
+    try (constructor <;> intro h <;> rcases h with h | h | h <;> simp [h])
+  · intro m p; simp only [Generated.okpParamMap, List.mem_cons, List.mem_nil_iff, Prod.mk.injEq, or_false]
+    try (constructor <;> intro h <;> rcases h with h | h <;> simp [h])
+
 example : ([122, 122] : Bytes) ∉ readSet := by decide
 example : ([120, 53, 99] : Bytes) ∉ readSet := by decide     -- "x5c"
 example : (Json.obj [(nKty, .str sOct), (nK, .str (uriEncode [1, 2, 3]))]).objGet nK = some (.str (uriEncode [1, 2, 3])) := by
